@@ -233,7 +233,14 @@ def exec_impl(driver, ops_text, extra_env=None, timeout=600):
         env = dict(GOENV, VERIF_ORACLE_OUT=oname)
         if extra_env:
             env.update(extra_env)
-        p = subprocess.run([driver, "-mode", "exec"], input=ops_text, capture_output=True, text=True, env=env, timeout=timeout)
+        try:
+            p = subprocess.run([driver, "-mode", "exec"], input=ops_text, capture_output=True, text=True, env=env, timeout=timeout)
+        except subprocess.TimeoutExpired as e:
+            out = e.stdout or ""
+            if isinstance(out, bytes):
+                out = out.decode("utf-8", "replace")
+            oracle = open(oname).read().splitlines()
+            return out.splitlines(), oracle, "the driver did not finish within %d s: the implementation hangs on this input" % timeout
         oracle = open(oname).read().splitlines()
         oracle += race_reports(p.stderr)
         crashed = p.returncode not in (0, 3)
